@@ -70,6 +70,17 @@ def make_start(start, model):
                 triples.append((f'v{i}', ':ARG0', f'v{i + 1}'))
         triples.reverse()
         return Graph(triples, top='v1')
+    if kind == 'deferred_leaves':
+        # a chain t -> d1 .. dM with K leaves below dM whose concept is spelled like the top variable; the chain is
+        # listed backwards and the leaves' instance triples come early: they look placeable (their target names an
+        # existing node) without being so, and are set aside round after round of the fallback loop
+        m_, k_ = int(start['m']), int(start['k'])
+        vs = ['t'] + [f'd{i}' for i in range(1, m_ + 1)]
+        chain = [(vs[i - 1], ':A', vs[i]) for i in range(1, m_ + 1)]
+        xs = [f'x{j}' for j in range(k_)]
+        triples = [('t', ':instance', 'top')] + list(reversed(chain[1:])) + [(x, ':instance', 't') for x in xs] + \
+            [chain[0]] + [(vs[-1], ':B', x) for x in xs] + [(v, ':instance', 'c') for v in vs[1:]]
+        return Graph(triples, top='t')
     if kind == 'decoded':
         text = gtext.fmt_node(start['tree'], start.get('style') or {'nl': False})
         return penman.decode(text, model=model)
